@@ -31,6 +31,15 @@ type finding struct {
 	hit      bool
 }
 
+// OutRoot is where evidence/ and replays/ are written (VERIF_OUT redirects them, e.g. when the
+// checks are run against a mutated scratch copy and must not touch the real evidence).
+var OutRoot = func() string {
+	if r := os.Getenv("VERIF_OUT"); r != "" {
+		return r
+	}
+	return Root
+}()
+
 // Ctx collects what one run of one check observed.
 type Ctx struct {
 	ID    string
@@ -196,7 +205,7 @@ func (c *Ctx) Violation(key, msg, kind string, cs interface{}) {
 	c.replaySeq++
 	raw, _ := json.Marshal(cs)
 	rp := Replay{Property: c.ID, Key: key, Message: msg, Kind: kind, Case: raw}
-	dir := filepath.Join(Root, "replays")
+	dir := filepath.Join(OutRoot, "replays")
 	_ = os.MkdirAll(dir, 0o755)
 	path := filepath.Join(dir, fmt.Sprintf("%s-%s-s%d-%03d.json", c.ID, c.Tier, c.Seed, c.replaySeq))
 	b, _ := json.MarshalIndent(rp, "", " ")
@@ -269,7 +278,7 @@ func (c *Ctx) Finish() int {
 		cov["samples"] = []interface{}{}
 	}
 	b, _ := json.MarshalIndent(evd, "", " ")
-	dir := filepath.Join(Root, "evidence")
+	dir := filepath.Join(OutRoot, "evidence")
 	_ = os.MkdirAll(dir, 0o755)
 	if err := os.WriteFile(filepath.Join(dir, c.ID+".json"), append(b, '\n'), 0o644); err != nil {
 		fmt.Printf("cannot write evidence: %v\n", err)
